@@ -7,6 +7,7 @@
    L [I 4; pag; m]           -> L [structure_ok pag m]                          structural clauses of a GIVEN graph m
    L [I 5; pdag; L pairs]    -> L [L [r1; r2; r3; r4] per ordered pair (i,j)]   UNIT level: does rule k of the proved model (C08) fire on i - j
    L [I 6; pag; m]           -> L [structure_ok; acyclic; no adc; unshielded colliders marked]   cheap verdicts of a GIVEN m (large graphs)
+   L [I 7; pdag]             -> L [D q; U q]   q = meek_model pdag: the closure the proved model computes for ONE round's input
    verdicts = [structure_ok; acyclic; no almost directed cycle; unshielded colliders marked in pag; valid_mag_spec; markov_equiv mag0] *)
 From Coq Require Import List Arith Bool.
 From PG Require Import Base.ListSet Base.Sx Graph.MGraph C08.Model C09.Model C09.Oracle C09.HypsB.
@@ -29,6 +30,7 @@ Definition run_case (s : sx) : sx :=
               let u := has_u g i j in
               L [of_bool (u && r1 g i j); of_bool (u && r2 g i j); of_bool (u && r3 g i j); of_bool (u && r4 g i j)])
             (sx_pairs (sx_nth s 2)))
-  | _ => let m := sx_graph (sx_nth s 2) in
+  | 6 => let m := sx_graph (sx_nth s 2) in
          L [of_bool (structure_ok g m); of_bool (acyclicb m); of_bool (no_adc m); of_bool (unsh_colliders_marked g m)]
+  | _ => L (out_du (meek_model g))
   end.
